@@ -92,6 +92,46 @@ def run(ctx):
             meta.append((sc, drv, i, m))
         if o["exit"] != 0:
             ctx.drift.append({"id": sc["id"], "exit": o["exit"], "stderr": o["_run"]["stderr"][-300:]})
+    # two-step histories: the second invocation finds destinations whose mode (or owner, or times) already equal the source's
+    import shutil
+    from .. import fsmat
+    hist_modes = [0o4755, 0o2755, 0o6775, 0o6711, 0o644, 0o1777, 0o4000]
+    steps = [([], ["--ownership"]), (["--ownership"], []), (["--no-perms"], ["--ownership"]), (["--no-timestamps"], []), ([], ["--no-perms", "--ownership"])]
+    def hist(j):
+        drv, (first, second), k = j
+        fs = build_tree(rnd, hist_modes, False)
+        sc = SC("hist-%s-%d" % (drv, k), fs, ["s"], "d", T=True, extra=["--block-size", "1000"], cls="meta"); sc["umask"] = 0o022
+        root = os.path.join(scratch(), "c10h-%s-%d" % (drv, k))
+        shutil.rmtree(root, ignore_errors=True); os.makedirs(root)
+        names = fsmat.Names(); contents = fsmat.materialise(root, nsplane.mat_entries(sc), names)
+        sc1 = dict(sc); sc1["extra"] = sc["extra"] + first
+        r1 = runner.run_xcp(binary, nsplane.cli(sc1, drv, names, root, 2), cwd=root, umask=0o022)
+        mid = {tuple(e["p"]): e for e in nsplane.observe(fsmat.snapshot(root, names, contents))}
+        sc2 = dict(sc); sc2["extra"] = sc["extra"] + second
+        t0 = time.time_ns()
+        r2 = runner.run_xcp(binary, nsplane.cli(sc2, drv, names, root, 2), cwd=root, umask=0o022)
+        t1 = time.time_ns()
+        end = {tuple(e["p"]): e for e in nsplane.observe(fsmat.snapshot(root, names, contents))}
+        shutil.rmtree(root, ignore_errors=True)
+        out = []
+        def md(e):
+            mo, mt, u, g, x, ino = e["md"].split("|"); return int(mo, 8), mt, int(u), int(g), x
+        for i, m in enumerate(hist_modes):
+            s = end.get(("s", "f%04d" % i)); dd = end.get(("d", "f%04d" % i)); pp = mid.get(("d", "f%04d" % i))
+            if not (s and dd and pp):
+                continue
+            sm, smt, su, sg, sx = md(s); dm, dmt, du, dg, dx = md(dd)
+            rel = max(-2 ** 30, min(2 ** 30, (int(dmt) - t0) // 1000000))
+            out.append(({"id": "%s/f%04d(%s then %s)" % (sc["id"], i, " ".join(first) or "plain", " ".join(second) or "plain"), "exit": r2.exit if r2.exit is not None else -9,
+                         "noperms": "--no-perms" in second, "notimes": "--no-timestamps" in second, "ownership": "--ownership" in second,
+                         "smode": sm, "dmode": dm, "pmode": md(pp)[0], "umask": 0o022, "smtime": smt, "dmtime": dmt, "dmtimeRelMs": rel,
+                         "runMs": (t1 - t0) // 1000000 + 1, "suid": su, "sgid": sg, "duid": du, "dgid": dg, "sx": sx, "dx": dx}, (sc2, drv, i, m)))
+        return out
+    hjobs = [(drv, st, k) for drv in ("parfile", "parblock") for k, st in enumerate(steps)]
+    for part in runner.pmap(hist, hjobs, workers=5):
+        for rec, who in part:
+            recs.append(rec); meta.append(who)
+    ctx.notes["two_step_histories"] = len(hjobs)
     verdicts = []
     for i in range(0, len(recs), 5000):
         mres = tlc.monitor("Trace_Meta", "Trace_Meta.cfg", recs[i:i + 5000])
